@@ -10,20 +10,20 @@ CLAIMED = {
  "C02": dict(tech="Colang front-end + CFG paths with three-valued guard evaluation; one-shot flag typestate; flag pairing over normal and failure exits; who-may-write + reachability/taint for the skip flag; reject=>stop typestate",
              text="Decides the structure of the output-rails gate for all abstract configurations (skip x flows x options) and all paths of the shipped flows, the one-shot consumption of the skip flag and its single untainted writer, reject=>stop in every shipped output rail, and in Colang 2 the gate in `_bot_say` plus reset of the re-entrancy flag on every exit including failure exits. Found and repaired F1, F2.",
              ref="DESIGN.md C02"),
- "C03": dict(tech="exception-containment query over lexical try nesting + handler CFG; def-use dominance (must-pass-through) of the failed-status replacement; abstract evaluation of every shipped Colang 2 rail under action result None; flag pairing over failure exits",
-             text="Decides containment of every expression that can run user action code in the dispatcher (all call sites, not sampled faults), the failed=>internal-error dominance in both runtimes, and fail-closed behaviour of every shipped Colang 2 blocking rail when its action fails. Found and repaired F3; F4 (5 rails that pass on a failed action) are listed known findings.",
+ "C03": dict(tech="exception-containment query over lexical try nesting + handler CFG; def-use dominance (must-pass-through) of the failed-status replacement; abstract evaluation of every shipped Colang 2 rail under action result None; flag pairing over failure exits; swallow-handler search around every expression evaluation of slide()",
+             text="Decides containment of every expression that can run user action code in the dispatcher (all call sites, not sampled faults), the failed=>internal-error dominance in both runtimes, and fail-closed behaviour of every shipped Colang 2 blocking rail when its action fails. Found and repaired F3; F4 (5 rails that pass on a failed action) are listed known findings. Also decides that an evaluation error in a rail's condition cannot be swallowed inside slide() (the premise of the fail-closed argument).",
              ref="DESIGN.md C03"),
  "C16": dict(tech="table agreement (model fields / translation keys / Colang guards / docs); abstract guard evaluation per category over the Colang CFG; complete path enumeration of the loop-free UserMessage flow against the documented decision table; producer/consumer marker protocol",
              text="Decides that each rail category's runner is guarded by its own option and no other (all abstract option combinations), the rails-only decision table of the UserMessage flow (complete, the flow is loop-free), the bot_message hand-over guard, and the marker protocol that makes `stop` land on exactly the open rail. Does not decide the concrete activated_rails list for a verdict combination.",
              ref="DESIGN.md C16"),
- "C04": dict(tech="sibling cross-check of the dict/list/set branches of the matcher against the documented rule template; dispatch exhaustiveness; CFG dominance of identity tests over argument scoring; return-value shape",
-             text="Decides the shape of the recursive matcher that the documentation states per container kind (size guard, recursion order, no-partner=>0.0, single specificity factor, loop over the expected container), the dominance of the action/flow instance and name tests over argument scoring, and the comparison primitives. The matching relation over all values is not decided. Found and repaired F5.",
+ "C04": dict(tech="sibling cross-check of the dict/list/set branches of the matcher against the documented rule template; dispatch exhaustiveness; CFG dominance of identity tests over argument scoring; return-value shape; path rule (name test on every positive path for internal events); predicate agreement of the expected/received action-event classifiers",
+             text="Decides the shape of the recursive matcher that the documentation states per container kind (size guard, recursion order, no-partner=>0.0, single specificity factor, loop over the expected container), the dominance of the action/flow instance and name tests over argument scoring, and the comparison primitives. The matching relation over all values is not decided. Found and repaired F5. For internal events every path to a positive score takes the name comparison, and both sides classify action events by the same name predicate.",
              ref="DESIGN.md C04"),
- "C05": dict(tech="CFG path enumeration of one group iteration / one competing-head iteration of _resolve_action_conflicts (emission count, fate count); def-use of the grouping key; shape of sort order and tie prefix; reaching definition of the filtered head list",
-             text="Decides on every path: one action emission per interaction-loop group, none for co-winners, exactly one fate (co-win under is_equal / caught / abort) per competing head, grouping by the head's own loop_id, descending score order with the winner drawn from the exact-tie prefix, and the active-flow filter before resolution. The order over score vectors for all values is not decided.",
+ "C05": dict(tech="CFG path enumeration of one group iteration / one competing-head iteration of _resolve_action_conflicts (emission count, fate count); def-use of the grouping key; shape of sort order and tie prefix; reaching definition of the filtered head list; value provenance of FlowState.loop_id; two-sidedness of the identity predicate Event.is_equal",
+             text="Decides on every path: one action emission per interaction-loop group, none for co-winners, exactly one fate (co-win under is_equal / caught / abort) per competing head, grouping by the head's own loop_id, descending score order with the winner drawn from the exact-tie prefix, and the active-flow filter before resolution. The order over score vectors for all values is not decided. Loop ids stored on instances come only from fresh ids, the instance's own declared loop (literal NEW excluded) or a live instance; the co-win predicate compares the argument sets of both sides.",
              ref="DESIGN.md C05"),
- "C06": dict(tech="typestate rule on every action Stop emission site (guard set, shared-count decrement, STOPPING before emit, via CFG must-pass-through); effect-set sibling cross-check of _finish_flow/_abort_flow; who-may-write table for `activated`; scope pairing on emission traces (emit2)",
-             text="Decides the Stop-event discipline at every emission site (exactly-one / never for non-running actions / shared actions), that finishing and aborting a flow perform the same set of lifetime effects in the semantically required order, the writers of the activation count and the immediate-finish guard. The lifetime invariant over all hierarchies and histories is not decided.",
+ "C06": dict(tech="typestate rule on every action Stop emission site (guard set, shared-count decrement, STOPPING before emit, via CFG must-pass-through); effect-set sibling cross-check of _finish_flow/_abort_flow; who-may-write table for `activated`; scope pairing on emission traces (emit2); who-may-shrink action_uids; necessary conjunct of the garbage-collection condition",
+             text="Decides the Stop-event discipline at every emission site (exactly-one / never for non-running actions / shared actions), that finishing and aborting a flow perform the same set of lifetime effects in the semantically required order, the writers of the activation count and the immediate-finish guard. The lifetime invariant over all hierarchies and histories is not decided. No code removes an action from a live flow's action list, and an ended instance is collected only when activated == 0.",
              ref="DESIGN.md C06"),
  "C09": dict(tech="who-may-write rules (raw head fields, matching index); construct->bind->use typestate per FlowHead construction site via CFG must-pass-through; de-register-before-delete dominance at every deletion site; drain structure of run_to_completion",
              text="Decides the mechanisms without which the incremental event->heads index cannot be exact: only the notifying setters move a head, every constructed or deserialised head has both callbacks bound to its own flow before it moves, every deletion of heads/flow states de-registers first, the index has exactly two symmetric maintainers, and the event loop ends only with an empty queue. The invariant over all reachable states is not decided. Found and repaired F7.",
@@ -46,8 +46,8 @@ CLAIMED = {
  "C11": dict(tech="writer/reader table agreement of the state (de)serialiser: emitted tags vs decoder branches; type coverage from dataclass field annotations reachable from State and from the return types of the expression-function table; recursive-encoding shape of every encoder branch; field agreement of the hand-written Action pair; index maintenance of the clean-up via CFG",
              text="Decides necessary conditions of 'serialising succeeds for every reachable state and restores every field': tag agreement, encoder coverage of every type a State can hold (found F9a regex: repaired; F9b ComparisonExpression: known), recursive encoding in every branch (F10: repaired), Action field agreement, and that the age-based clean-up keeps flow_id_states / child lists / actions in step and only collects done, inactive, old instances. Behavioural equality after restore or ageing is not decided.",
              ref="DESIGN.md C11"),
- "C17": dict(tech="forward may-taint over each function's CFG from LLM completions to template/expression/code evaluators (with a planted positive example on every run); decorator-based who-may-consume rule; exception-containment of the non-action consumers; handler totality through the call graph",
-             text="Decides for all LLM outputs at once that no completion-derived value reaches a template, expression or code evaluator (literal_eval only for generated values), that every consumer of a completion runs as an @action under the dispatcher's containment (C03.a), and that the two consumers outside actions (v1 dynamic flow start: F15 repaired; v2 AddFlowsAction) are protected and total. 'Every hostile text gives a well-formed reply' beyond that containment argument is not decided.",
+ "C17": dict(tech="forward may-taint over each function's CFG from LLM completions to template/expression/code evaluators (with a planted positive example on every run); decorator-based who-may-consume rule; exception-containment of the non-action consumers; handler totality through the call graph; taint from turn data to the template source; depth-disjointness of the two `$name` resolvers; must-pass of the emptiness fallback before next_events[-1]; accepted-type subset of the generated-value validator vs. the state encoder",
+             text="Decides for all LLM outputs at once that no completion-derived value reaches a template, expression or code evaluator (literal_eval only for generated values), that every consumer of a completion runs as an @action under the dispatcher's containment (C03.a), and that the two consumers outside actions (v1 dynamic flow start: F15 repaired; v2 AddFlowsAction) are protected and total. 'Every hostile text gives a well-formed reply' beyond that containment argument is not decided. Additionally: turn data never enters the Jinja source, `$name` references are resolved once, an LLM-generated flow with no next step cannot index an empty list (F26, repaired), generated literals are restricted to types the state encoder handles (F27, repaired); execution errors of LLM-generated multi-step flows are uncontained (F25, known finding).",
              ref="DESIGN.md C17"),
  "C07": dict(tech="abstract interpretation (emit2) of the group expanders in expansion.py: emission traces over symbolic inputs, all branch-choice paths, several size assignments; wait-placement / count / handler-balance obligations on the generated control flow; AST shape of the DNF normaliser",
              text="Decides on the code generator (i.e. for every program it will ever expand) that and-groups wait for all heads on success and fail at once, or-groups succeed at once and fail only after all alternatives failed, that every WaitForHeads counts exactly the heads of its fork, every forked branch returns to the end label, and failure handlers are pushed/popped in balance on every path. DNF equivalence for all formulas and the run-time merge dynamics are not decided.",
